@@ -173,7 +173,14 @@ def show_atom(a):
 
 def show_seq(s):
     if isinstance(s, tuple):
-        return s[0] + "(" + ",".join(show_seq(x) if isinstance(x, tuple) else str(x) for x in s[1:]) + ")"
+        if s and isinstance(s[0], str):
+            return s[0] + "(" + ",".join(show_seq(x) if isinstance(x, tuple) else str(x) for x in s[1:]) + ")"
+        if len(s) == 2 and isinstance(s[1], int) and isinstance(s[0], tuple):
+            try:
+                return str(Lin.from_key(s))
+            except Exception:
+                pass
+        return "(" + ",".join(show_seq(x) if isinstance(x, tuple) else str(x) for x in s) + ")"
     return str(s)
 
 
@@ -182,7 +189,11 @@ def sub_lins(a):
     """Lin keys nested in an atom"""
     k = a[0]
     if k == "byte":
+        if isinstance(a[1], tuple):
+            return (a[2],) + tuple(_seq_lins(a[1]))
         return (a[2],)
+    if k == "len" and isinstance(a[1], tuple):
+        return tuple(_seq_lins(a[1]))
     if k in ("mod", "div", "sl"):
         return (a[1],)
     if k == "elem":
@@ -198,15 +209,21 @@ def sub_lins(a):
     return ()
 
 
+def _is_lin_key(x):
+    return (isinstance(x, tuple) and len(x) == 2 and isinstance(x[1], int) and not isinstance(x[1], bool)
+            and isinstance(x[0], tuple)
+            and all(isinstance(t, tuple) and len(t) == 2 and isinstance(t[0], tuple) and isinstance(t[1], int) for t in x[0]))
+
+
 def _seq_lins(s):
+    """Lin keys nested anywhere inside a (nested) tuple name"""
     out = []
     if isinstance(s, tuple):
-        for x in s[1:]:
-            if isinstance(x, tuple):
-                if len(x) == 2 and isinstance(x[0], tuple) and isinstance(x[1], int) and (not x[0] or isinstance(x[0][0], tuple)):
-                    out.append(x)  # looks like a Lin key
-                else:
-                    out.extend(_seq_lins(x))
+        for x in s:
+            if _is_lin_key(x):
+                out.append(x)
+            elif isinstance(x, tuple):
+                out.extend(_seq_lins(x))
     return out
 
 
@@ -240,13 +257,12 @@ def _subst_key(key, mapping):
 
 def _subst_seq(s, mapping):
     if isinstance(s, tuple):
-        out = [s[0]]
-        for x in s[1:]:
-            if isinstance(x, tuple):
-                if len(x) == 2 and isinstance(x[0], tuple) and isinstance(x[1], int) and (not x[0] or isinstance(x[0][0], tuple)):
-                    out.append(_subst_key(x, mapping))
-                else:
-                    out.append(_subst_seq(x, mapping))
+        out = []
+        for x in s:
+            if _is_lin_key(x):
+                out.append(_subst_key(x, mapping))
+            elif isinstance(x, tuple):
+                out.append(_subst_seq(x, mapping))
             else:
                 out.append(x)
         return tuple(out)
@@ -256,7 +272,9 @@ def _subst_seq(s, mapping):
 def subst_atom(a, mapping):
     k = a[0]
     if k == "byte":
-        return ("byte", a[1], _subst_key(a[2], mapping))
+        return ("byte", _subst_seq(a[1], mapping) if isinstance(a[1], tuple) else a[1], _subst_key(a[2], mapping))
+    if k == "len" and isinstance(a[1], tuple):
+        return ("len", _subst_seq(a[1], mapping))
     if k == "mod":
         # canonical representative: (t + j*m) mod m == t mod m
         t = subst_deep(Lin.from_key(a[1]), mapping)
